@@ -2,6 +2,7 @@ package symx
 
 import (
 	"fmt"
+	"os"
 	"go/token"
 	"runtime"
 	"sort"
@@ -257,13 +258,19 @@ func sampleOf(res *PathResult) map[string]any {
 
 // RunPath executes the harness once along prefix.
 func (m *Machine) RunPath(pkg *ssa.Package, fn *ssa.Function, prefix []Decision) (res *PathResult, forks [][]Decision) {
+	if os.Getenv("GOSMT_PROF") != "" {
+		t0 := time.Now()
+		q0 := m.solver.Stats.Queries
+		defer func() {
+			fmt.Fprintf(os.Stderr, "path %s: %v steps=%d queries=%d solver=%v\n", PrefixString(prefix), time.Since(t0), m.steps, m.solver.Stats.Queries-q0, m.solver.Stats.Time)
+		}()
+	}
 	m.resetGlobals()
 	m.path = NewPath(prefix)
 	m.steps = 0
 	m.clock = clockState{}
 	m.uuidCounter = 0
 	m.nativeState = map[string]any{}
-	m.models = m.models[:0]
 	p := m.path
 	res = &PathResult{}
 	func() {
